@@ -34,6 +34,7 @@ SOFTWARE.
 
 #%%
 import numpy as np
+from fractions import Fraction
 from . import _n_word_max
 
 #%% 
@@ -450,16 +451,31 @@ def has_big_int(x):
         return any(has_big_int(v) for v in x)
     return isinstance(x, int) and not (-2**63 <= x < 2**63)
 
-def scale_raw(val, shift):
+def needs_exact_scale(val, shift):
+    """True if `val` * 2**shift (shift < 0) cannot be computed in float64 without losing bits of the integer value(s) `val`."""
+    if shift >= 0 or not isinstance(val, (np.ndarray, np.generic)) or val.size == 0:
+        return False
+    if val.dtype == object:
+        if not all(isinstance(v, (int, np.integer)) for v in np.asarray(val).flatten()):
+            return False
+    elif not np.issubdtype(val.dtype, np.integer):
+        return False
+    return max(abs(int(np.max(val))), abs(int(np.min(val)))) >= (1 << 53)
+
+def scale_raw(val, shift, exact=None):
     """
     Returns the raw (integer) value(s) `val` multiplied by 2**shift.
     Python integers are used when the factor or the scaled value(s) would not fit in 63 bits, avoiding a silent wrap
     (or an OverflowError for the factor) on int64/uint64 arrays.
+    For a negative shift the result is fractional: a float64 product when that is exact, otherwise (values of more than
+    53 bits, or `exact=True`) an object array of exact rationals, which set_val() rounds once with the configured rounding.
     """
     if shift > 0 and isinstance(val, (np.ndarray, np.generic)) and val.dtype != object and val.size > 0 \
         and np.issubdtype(val.dtype, np.integer):
         if shift >= 63 or max(abs(int(np.max(val))), abs(int(np.min(val)))) << shift >= (1 << 63):
             val = np.asarray(val).astype(object)
+    if shift < 0 and (needs_exact_scale(val, shift) if exact is None else (exact and isinstance(val, (np.ndarray, np.generic)))):
+        return np.asarray(np.asarray(val).astype(object) * Fraction(1, 1 << -shift), dtype=object)    # (0-d: the product is a bare object)
     return val * 2**shift
 
 def get_sizes_from_dtype(dtype):
